@@ -49,10 +49,17 @@ def ensure(repo=None):
             mod = importlib.util.module_from_spec(spec)
             spec.loader.exec_module(mod)
             mod.ffi.compile(tmpdir=tmp, verbose=False)
-        # drop old builds (disk hygiene), keep only the new one
+        # drop old builds (disk hygiene); builds of the last two hours may belong to a check that is
+        # running concurrently against another tree (VERIF_REPO)
+        import time
         for d in os.listdir(bdir):
-            if d.startswith("nvx-") and os.path.join(bdir, d) not in (tmp, out):
-                shutil.rmtree(os.path.join(bdir, d), ignore_errors=True)
+            pth = os.path.join(bdir, d)
+            if d.startswith("nvx-") and pth not in (tmp, out):
+                try:
+                    if time.time() - os.path.getmtime(pth) > 7200:
+                        shutil.rmtree(pth, ignore_errors=True)
+                except OSError:
+                    pass
         open(os.path.join(tmp, "OK"), "w").close()
         shutil.rmtree(out, ignore_errors=True)
         os.rename(tmp, out)
